@@ -108,6 +108,8 @@ type sWriter struct {
 	calls     int
 	ctx       context.Context
 	afterDone int
+	cancelAt  int // -1: never; otherwise cancel() from inside the Write during which the total reaches cancelAt
+	cancel    func()
 }
 
 func (w *sWriter) Write(p []byte) (int, error) {
@@ -115,7 +117,12 @@ func (w *sWriter) Write(p []byte) (int, error) {
 	if w.ctx != nil && w.ctx.Err() != nil {
 		w.afterDone++
 	}
-	return w.buf.Write(p)
+	n, err := w.buf.Write(p)
+	if w.cancelAt >= 0 && w.buf.Len() >= w.cancelAt && w.cancel != nil {
+		w.cancel()
+		w.cancel = nil
+	}
+	return n, err
 }
 
 type sWriterRF struct{ *sWriter }
@@ -189,7 +196,10 @@ func runStream(r *vrun.Run, c streamCase) {
 	if c.WT {
 		reader = sReaderWT{sr}
 	}
-	sw := &sWriter{ctx: ctx}
+	sw := &sWriter{ctx: ctx, cancelAt: -1}
+	if c.Fault == "cancel-in-write" {
+		sw.cancelAt, sw.cancel = c.At, cancel
+	}
 	var writer io.Writer = sw
 	if c.RF {
 		writer = sWriterRF{sw}
@@ -268,6 +278,14 @@ func runStream(r *vrun.Run, c streamCase) {
 				r.Violation(sig("eof-not-reported-as-eof-kind"), fmt.Sprintf("%s: io.ErrUnexpectedEOF from the reader reported as %v", c.Helper, err), wit)
 			}
 		}
+	case "cancel-in-write":
+		// the context ends while a Write is in progress: no further Read may be started on the source
+		if sr.afterDone > 0 {
+			r.Violation(sig("read-started-after-context-done"), fmt.Sprintf("%s started %d Read(s) on the source after the context had been cancelled during a Write", c.Helper, sr.afterDone), wit)
+		}
+		if len(want)-c.At > 200000 && err == nil {
+			r.Violation(sig("cancellation-ignored"), fmt.Sprintf("%s returned nil although the context was cancelled at byte %d of %d", c.Helper, c.At, len(want)), wit)
+		}
 	case "cancel":
 		if sr.afterDone > 0 {
 			r.Violation(sig("read-started-after-context-done"), fmt.Sprintf("%s started %d Read(s) on the source after the context had been cancelled", c.Helper, sr.afterDone), wit)
@@ -333,6 +351,18 @@ func partA(r *vrun.Run) {
 							v.Fault = f
 							v.At = []int{0, 1, L / 2, L - 1}[rng.IntN(4)]
 							if f == "cancel" && L > 100000 {
+								v.At = rng.IntN(L / 4)
+							}
+							variants = append(variants, v)
+						}
+					}
+					if L > 0 && (h == "CopyDataWithContext" || h == "CopyNWithContext") {
+						for _, rf := range []bool{false, true} {
+							v = base
+							v.Fault = "cancel-in-write"
+							v.RF = rf
+							v.At = []int{1, L / 3, L / 2, L - 1}[rng.IntN(4)]
+							if L > 100000 {
 								v.At = rng.IntN(L / 4)
 							}
 							variants = append(variants, v)
